@@ -290,7 +290,14 @@ func (p *Printer) Rule(r *Rule) {
 
 // PrintRules renders a text of several rules.
 func PrintRules(rs []*Rule, lay []byte) (string, *Printer) {
+	return PrintRulesLead(rs, lay, "")
+}
+
+// PrintRulesLead renders the rules after the given leading text (whitespace, blank lines,
+// comment lines), which counts for the line numbers like any other text.
+func PrintRulesLead(rs []*Rule, lay []byte, lead string) (string, *Printer) {
 	p := NewPrinter(lay)
+	p.write(lead)
 	for _, r := range rs {
 		p.Rule(r)
 	}
